@@ -12,6 +12,11 @@ transforms:
     nest        `if a and b: X` (no else)  ->  `if a: if b: X`
     dewalrus    `if (v := e) <cmp>: ...` / `while`-free: hoists a walrus that is the first thing the if-test evaluates
     demorgan    `if not (a and b)` <-> `if not a or not b` on if tests
+    tmpreturn   `return E` -> `_ret_mm = E; return _ret_mm`
+    returnelse  `if c: <exit>` REST -> `if c: <exit> else: REST`
+    guardclause trailing `if c: BODY` of a function -> `if not c: return` BODY
+    ifexp       `x = a if c else b` / `return a if c else b` -> if / else statements
+    compr       `xs = [E for v in IT if C]` -> explicit loop with append
 """
 
 from __future__ import annotations
@@ -194,7 +199,180 @@ class DeWalrus(ast.NodeTransformer):
         return node
 
 
-TRANSFORMS = {"identity": None, "rename": Rename, "invert": Invert, "nest": Nest, "dewalrus": DeWalrus, "demorgan": DeMorgan}
+def _terminates(body: list[ast.stmt]) -> bool:
+    return bool(body) and isinstance(body[-1], (ast.Return, ast.Raise, ast.Continue, ast.Break))
+
+
+class TmpReturn(ast.NodeTransformer):
+    """`return EXPR` -> `_ret_mm = EXPR; return _ret_mm` (EXPR not a plain name / constant)"""
+
+    def _block(self, stmts):
+        out = []
+        for st in stmts:
+            st = self.visit(st)
+            if isinstance(st, ast.Return) and st.value is not None and not isinstance(st.value, (ast.Name, ast.Constant)):
+                out.append(ast.copy_location(ast.Assign(targets=[ast.Name(id="_ret_mm", ctx=ast.Store())], value=st.value), st))
+                out.append(ast.copy_location(ast.Return(value=ast.Name(id="_ret_mm", ctx=ast.Load())), st))
+            else:
+                out.append(st)
+        return out
+
+    def generic_visit(self, node):
+        if isinstance(node, ast.Lambda):
+            return node
+        for fld in ("body", "orelse", "finalbody"):
+            v = getattr(node, fld, None)
+            if isinstance(v, list) and v and isinstance(v[0], ast.stmt):
+                setattr(node, fld, self._block(v))
+        for h in getattr(node, "handlers", []) or []:
+            h.body = self._block(h.body)
+        for c in getattr(node, "cases", []) or []:
+            c.body = self._block(c.body)
+        return node
+
+    def visit_FunctionDef(self, node):
+        if any(isinstance(n, (ast.Yield, ast.YieldFrom)) for n in ast.walk(node)):
+            return node
+        return self.generic_visit(node)
+
+    visit_AsyncFunctionDef = visit_FunctionDef
+
+
+class ReturnElse(ast.NodeTransformer):
+    """`if c: <terminating>` followed by REST  ->  `if c: <terminating> else: REST`"""
+
+    def _block(self, stmts):
+        stmts = [self.visit(s) for s in stmts]
+        for i, st in enumerate(stmts):
+            if isinstance(st, ast.If) and not st.orelse and _terminates(st.body) and i + 1 < len(stmts):
+                rest = self._block_noop(stmts[i + 1 :])
+                st.orelse = rest
+                return stmts[: i + 1]
+        return stmts
+
+    def _block_noop(self, stmts):
+        # the tail was already visited; apply the rewrite recursively on it
+        for i, st in enumerate(stmts):
+            if isinstance(st, ast.If) and not st.orelse and _terminates(st.body) and i + 1 < len(stmts):
+                st.orelse = self._block_noop(stmts[i + 1 :])
+                return stmts[: i + 1]
+        return stmts
+
+    def generic_visit(self, node):
+        for fld in ("body", "orelse", "finalbody"):
+            v = getattr(node, fld, None)
+            if isinstance(v, list) and v and isinstance(v[0], ast.stmt):
+                setattr(node, fld, self._block(v))
+        for h in getattr(node, "handlers", []) or []:
+            h.body = self._block(h.body)
+        for c in getattr(node, "cases", []) or []:
+            c.body = self._block(c.body)
+        return node
+
+
+class GuardClause(ast.NodeTransformer):
+    """last statement of a function `if c: BODY` (no else, function falls off the end)  ->  `if not c: return` + BODY"""
+
+    def visit_FunctionDef(self, node):
+        self.generic_visit(node)
+        if any(isinstance(n, (ast.Yield, ast.YieldFrom)) for n in ast.walk(node)):
+            return node
+        last = node.body[-1] if node.body else None
+        if isinstance(last, ast.If) and not last.orelse and len(node.body) >= 1 and not any(isinstance(x, ast.NamedExpr) for x in ast.walk(last.test)):
+            node.body = node.body[:-1] + [ast.copy_location(ast.If(test=_neg(last.test), body=[ast.Return(value=None)], orelse=[]), last)] + last.body
+        return node
+
+    visit_AsyncFunctionDef = visit_FunctionDef
+
+
+class IfExpToStmt(ast.NodeTransformer):
+    """`x = a if c else b` (plain name target)  ->  `if c: x = a else: x = b`"""
+
+    def _block(self, stmts):
+        out = []
+        for st in stmts:
+            st = self.visit(st)
+            if isinstance(st, ast.Assign) and len(st.targets) == 1 and isinstance(st.targets[0], ast.Name) and isinstance(st.value, ast.IfExp):
+                mk = lambda v: ast.copy_location(ast.Assign(targets=[ast.Name(id=st.targets[0].id, ctx=ast.Store())], value=v), st)
+                out.append(ast.copy_location(ast.If(test=st.value.test, body=[mk(st.value.body)], orelse=[mk(st.value.orelse)]), st))
+            elif isinstance(st, ast.Return) and isinstance(st.value, ast.IfExp):
+                out.append(ast.copy_location(ast.If(test=st.value.test, body=[ast.copy_location(ast.Return(value=st.value.body), st)], orelse=[ast.copy_location(ast.Return(value=st.value.orelse), st)]), st))
+            else:
+                out.append(st)
+        return out
+
+    def generic_visit(self, node):
+        if isinstance(node, ast.Lambda):
+            return node
+        for fld in ("body", "orelse", "finalbody"):
+            v = getattr(node, fld, None)
+            if isinstance(v, list) and v and isinstance(v[0], ast.stmt):
+                setattr(node, fld, self._block(v))
+        for h in getattr(node, "handlers", []) or []:
+            h.body = self._block(h.body)
+        for c in getattr(node, "cases", []) or []:
+            c.body = self._block(c.body)
+        return node
+
+    def visit_ClassDef(self, node):
+        # class-level assignments stay (dataclass fields etc.); methods are rewritten
+        node.body = [self.visit(s) if isinstance(s, (ast.FunctionDef, ast.AsyncFunctionDef, ast.ClassDef)) else s for s in node.body]
+        return node
+
+    def visit_Module(self, node):
+        node.body = [self.visit(s) if isinstance(s, (ast.FunctionDef, ast.AsyncFunctionDef, ast.ClassDef)) else s for s in node.body]
+        return node
+
+
+class ComprToLoop(ast.NodeTransformer):
+    """`xs = [E for v in IT if C]` (statement in a function, one generator, plain name targets not used elsewhere in the
+    function)  ->  `xs = []` / `for v in IT: if C: xs.append(E)`"""
+
+    def visit_FunctionDef(self, node):
+        self.generic_visit(node)
+        if any(isinstance(n, (ast.Lambda, ast.FunctionDef, ast.AsyncFunctionDef, ast.ClassDef)) for n in ast.walk(node) if n is not node):
+            return node
+        counts: dict[str, int] = {}
+        for n in ast.walk(node):
+            if isinstance(n, ast.Name):
+                counts[n.id] = counts.get(n.id, 0) + 1
+        params = {a.arg for a in node.args.posonlyargs + node.args.args + node.args.kwonlyargs}
+
+        def block(stmts):
+            out = []
+            for st in stmts:
+                for fld in ("body", "orelse", "finalbody"):
+                    v = getattr(st, fld, None)
+                    if isinstance(v, list) and v and isinstance(v[0], ast.stmt):
+                        setattr(st, fld, block(v))
+                for h in getattr(st, "handlers", []) or []:
+                    h.body = block(h.body)
+                for c in getattr(st, "cases", []) or []:
+                    c.body = block(c.body)
+                if isinstance(st, ast.Assign) and len(st.targets) == 1 and isinstance(st.targets[0], ast.Name) and isinstance(st.value, ast.ListComp) and len(st.value.generators) == 1 and not st.value.generators[0].is_async:
+                    g = st.value.generators[0]
+                    tnames = [x.id for x in ast.walk(g.target) if isinstance(x, ast.Name)]
+                    inside = sum(1 for x in ast.walk(st.value) if isinstance(x, ast.Name) and x.id in tnames)
+                    xs = st.targets[0].id
+                    uses_self = any(isinstance(x, ast.Name) and x.id == xs for x in ast.walk(st.value))
+                    if tnames and all(t not in params for t in tnames) and sum(counts.get(t, 0) for t in tnames) == inside and not uses_self and not any(isinstance(x, ast.NamedExpr) for x in ast.walk(st.value)):
+                        app = ast.Expr(value=ast.Call(func=ast.Attribute(value=ast.Name(id=xs, ctx=ast.Load()), attr="append", ctx=ast.Load()), args=[st.value.elt], keywords=[]))
+                        body = [app]
+                        for c_ in reversed(g.ifs):
+                            body = [ast.If(test=c_, body=body, orelse=[])]
+                        out.append(ast.copy_location(ast.Assign(targets=[ast.Name(id=xs, ctx=ast.Store())], value=ast.List(elts=[], ctx=ast.Load())), st))
+                        out.append(ast.copy_location(ast.For(target=g.target, iter=g.iter, body=body, orelse=[], type_comment=None), st))
+                        continue
+                out.append(st)
+            return out
+
+        node.body = block(node.body)
+        return node
+
+    visit_AsyncFunctionDef = visit_FunctionDef
+
+
+TRANSFORMS = {"tmpreturn": TmpReturn, "returnelse": ReturnElse, "guardclause": GuardClause, "ifexp": IfExpToStmt, "compr": ComprToLoop, "identity": None, "rename": Rename, "invert": Invert, "nest": Nest, "dewalrus": DeWalrus, "demorgan": DeMorgan}
 
 
 def main() -> int:
